@@ -5,7 +5,8 @@ CXX_SOURCES = ['libs/acn/CID.cpp', 'libs/acn/CIDImpl.cpp']
 # Keys that are property-determined.  The remaining keys (lv, le, lend, lraw) only validate the
 # Coq models of libc / libuuid (Libc.v) against the platform's functions: a mismatch there means
 # the libc model is wrong, not that OLA violates the property.
-SPEC_KEYS = ['ok', 'v', 'pok', 'pv', 't', 'p', 's', 'rt', 'd', 'back', 'a', 'eq', 'nil', 'wrap', 'n']
+SPEC_KEYS = ['ok', 'v', 'pok', 'pv', 't', 'p', 's', 'rt', 'd', 'back', 'a', 'eq', 'nil', 'wrap', 'n',
+             'pure', 'mis', 'cnt']
 INTERNAL_KEYS = []
 
 RULE = ('every value -> text -> value for ALL 8-bit and ALL 16-bit values (both tiers) of every '
@@ -14,6 +15,13 @@ RULE = ('every value -> text -> value for ALL 8-bit and ALL 16-bit values (both 
         'frames; malformed texts from a grammar (white space, + and - signs, leading zeros, overflow by '
         'one, 17-30 digits, trailing junk, embedded NUL, missing/extra separators, wrong field widths) '
         'for every parser; the libc/libuuid models are run against the real functions on the same texts; '
+        'CONTRACT printers are pure functions of the value: (1) operator<< of every value type (UID, IPv4, IPv6, '
+        'socket address, MAC, CID, DmxBuffer) on a caller stream that already carries state (left/right/internal, '
+        'hex, fill, pending setw) must insert exactly the ToString() text as one string field and leave the '
+        'stream state unchanged - a following integer keeps the caller base, a later setw field the caller fill '
+        'and adjustment (op strm, text compared with the model); (2) IntToString/ToHex/UID::ToString/'
+        'IPV4Address::ToString called from 2 and 4 threads at once must give 0 wrong conversions (op thr; a '
+        'correct tree can never produce a mismatch, detection of a race is probabilistic); '
         'non-trivial = the model accepts the text or the value round-trips; distinct = distinct model output line')
 ASSUMPTIONS = ['LP64 glibc in the "C" locale (strtoul = strtoull, isspace = " \\t\\n\\v\\f\\r"); validated on every run '
                'by the strtoull/strtoll/strtoul/strtol/atoi/inet_pton/uuid_parse cases',
@@ -268,6 +276,33 @@ def sweep_values(bits, signed):
 
 def gen_cases(rng, tier):
     quick = tier == 'quick'
+    # ---- printers from several threads at once (first, so that they land in different shards) ------
+    for i in range(4 if quick else 8):
+        yield 'thr %d %d %d' % ((2, 4)[i % 2], 20000 if quick else 50000, rng.randrange(1 << 32))
+    # ---- operator<< on a stream that already carries format state ---------------------------------
+    for i in range(1400 * (1 if quick else 10)):
+        ty = ('uid', 'ip4', 'ip6', 'sa', 'mac', 'cid', 'dmx')[i % 7]
+        adj = rng.choice([0, 1, 1, 2, 3])
+        base = rng.choice([10, 10, 16])
+        fill = rng.choice([32, 32, 48, 42, 46])
+        w = rng.choice([0, 0, 1, 5, 13, 14, 15, 20, 40, 48])
+        n = rng.choice([0, 9, 10, 15, 16, 80, 255, 256, 4095, 65535, 1 << 31, (1 << 32) - 1, (1 << 64) - 1,
+                        rng.randrange(1 << 16), rng.randrange(1 << 40)])
+        if ty == 'uid':
+            val = str(rng.choice([0, 1, 0x7a7000000001, (1 << 48) - 1, 0x000100000010, rng.randrange(1 << 48)]))
+        elif ty == 'ip4':
+            val = bytes(rng.choice([0, 1, 10, 255, rng.randrange(256)]) for _ in range(4)).hex()
+        elif ty == 'sa':
+            val = '%s %d' % (bytes(rng.choice([0, 1, 10, 255, rng.randrange(256)]) for _ in range(4)).hex(),
+                             rng.choice([0, 80, 65535, rng.randrange(65536)]))
+        elif ty == 'mac':
+            val = bytes(rng.choice([0, 1, 15, 16, 255, rng.randrange(256)]) for _ in range(6)).hex()
+        elif ty == 'dmx':
+            k = rng.choice([0, 1, 2, 3, 8, 24])
+            val = bytes(rng.choice([0, 1, 10, 100, 255, rng.randrange(256)]) for _ in range(k)).hex() or '-'
+        else:
+            val = bytes(rng.choice([0, 0, 255, 1, rng.randrange(256)]) for _ in range(16)).hex()
+        yield 'strm %s %d %d %d %d %d %s' % (ty, adj, base, fill, w, n, val)
     # ---- value -> text -> value sweeps -------------------------------------------------------
     for v in sweep_values(8, False):
         yield 'rtu 8 %d' % v
@@ -418,7 +453,7 @@ def gen_cases(rng, tier):
 
 
 def nontrivial(payload, md):
-    if md.get('ok') == '1' or md.get('pok') == '1' or md.get('rt') == '1' or md.get('eq') == '1':
+    if md.get('ok') == '1' or md.get('pok') == '1' or md.get('rt') == '1' or md.get('eq') == '1' or 'pure' in md or 'mis' in md:
         return True
     op = payload.split(' ', 1)[0]
     if op in ('dmx', 'dmxv'):
